@@ -196,6 +196,17 @@ def _r1(ctx):
         return True
     b = match(("call", ("global", "enumerate"), (V("z"),), ()), it)
     srcs = [x for a in seqs_of(b["z"]) for x in sources(a)] if b else []
+    # a list built one entry per reaction whose entries are then overwritten in place: somebody else writes the guard / rate text
+    for b_, _ in srcs:
+        if b_[0] == "acc":
+            inits = [f for f in fl.facts if f.kind == "init" and f.target == b_[1]]
+            stores = [f for f in fl.facts if f.kind in ("store", "augstore") and f.target == b_[1] and f.value is not None]
+            if inits and stores and all(not opaque(x) for f in inits for x, _ in sources(f.value)) \
+                    and not all(isinstance(simp(f.value), tuple) and simp(f.value)[0] == "meth" and simp(f.value)[2] == "rateexpr" for f in stores):
+                ctx.bad("R1", "_assign_rates:iteration", (FILE, stores[0].line),
+                        f"entries of `{b_[1]}` are overwritten in place after the list was built one entry per reaction: the statement of a reaction no longer carries "
+                        "that reaction's own guard / reac.rateexpr()", expected="no element store into the guard / rate lists", found=show(simp(stores[0].value))[:100])
+                return
     if not b or any(opaque(b_) for b_, _ in srcs):
         ctx.unrec("R1", "_assign_rates:iteration", (FILE, rets[0].line),
                   "cannot see how the statements are paired with the reactions (expected enumerate(zip(guards, rates)) over views of `reactions`): " + show(it)[:160])
@@ -239,7 +250,7 @@ def _r1(ctx):
             return v_
         if v_[0] == "elem" and len(v_) == 3 and helped(v_[1]):
             return at(v_[1], v_[2], depth)
-        if v_[0] == "idx" and len(v_) == 3 and helped(v_[1]) and all(b_ == R and not f_ for z in seqs_of(v_[1]) for b_, f_ in sources(z)):
+        if v_[0] == "idx" and len(v_) == 3 and all(b_ == R and not f_ for z in seqs_of(v_[1]) for b_, f_ in sources(z)):
             return ("idx", R, v_[2])
         return tuple(resolve(x, depth) if isinstance(x, tuple) else x for x in v_)
     elt = simp(resolve(elt0))     # (simp first: elements of comprehensions are resolved while their variables are still bound)
@@ -836,4 +847,17 @@ MUTANTS += [
 BENIGN += [
     {"name": "krome-window-tokens-as-class-constants", "edits": _k_consts('("N", "NONE", "N/A", "NO", "")', '("<", ">", ".LE.", ".GE.", ".LT.", ".GT.")')},
     {"name": "krome-window-arms-merged", "file": KROME, "old": _K_ARMS_OLD, "new": _k_merged("temp_min", "temp_max")},
+]
+_RA = "        rateassign = [\n"
+MUTANTS += [
+    {"name": "pairing-filtered-before-enumerate", "edits": [
+        {"file": T, "old": _RA, "new": '        assigned = [(tr, expr) for tr, expr in zip(tranges, rateexprs) if expr != "0.0"]\n' + _RA},
+        {"file": T, "old": "in enumerate(zip(tranges, rateexprs))", "new": "in enumerate(assigned)"}], "rules": ["R1"]},
+    {"name": "rates-overwritten-in-place", "file": T, "old": _RA, "new": '        first_use = {}\n        for ridx, rateexpr in enumerate(rateexprs):\n            prev = first_use.setdefault(rateexpr, ridx)\n'
+                                                                        '            if prev != ridx:\n                rateexprs[ridx] = f"{rate_sym}[{prev}]"\n' + _RA, "rules": ["R1"]},
+    {"name": "rates-wrapped-by-rewriter", "file": T, "old": _RA, "new": '        rateexprs = [x.replace("pow(", "powf(") for x in rateexprs]\n' + _RA, "rules": ["R1"]},
+    {"name": "rates-shared-by-loop-helper", "edits": [
+        {"file": T, "old": "    def _assign_rates(\n", "new": '    @staticmethod\n    def _share(exprs, symbol):\n        first = {}\n        shared = []\n        for idx, expr in enumerate(exprs):\n'
+                                                             '            ref = first.setdefault(expr, idx)\n            shared.append(f"{symbol}[{ref}]" if ref != idx else expr)\n        return shared\n\n    def _assign_rates(\n'},
+        {"file": T, "old": _RA, "new": "        rateexprs = self._share(rateexprs, rate_sym)\n" + _RA}], "rules": ["R1"]},
 ]
